@@ -14,7 +14,9 @@ Per environment (one worker process each; the physics engine is replaced by unin
   `reset_consistent`: every derived leaf read on the state returned by `initial()` is FWD_leaf of a state with that qpos,
   qvel, ctrl.
 * Counterexamples are replayed on the real lerax functions and on the installed Gymnasium class from the same data /
-  the same qpos, qvel, action; pipeline findings additionally run the real MJX physics in a helper process.
+  the same qpos, qvel, action.  A leaf the pipeline never writes is replayed without running the physics (the jaxpr of the
+  real, unstubbed transition passes it through; real initial() gives zeros; Gymnasium stepped into contact has it non-zero);
+  the thorough tier additionally runs the real MJX transition in a helper process (20-50 s of XLA compilation).
 """
 import json
 import os
@@ -190,7 +192,7 @@ class EnvCheck:
         self.phys = None
         # the real-physics helper takes 30-50 s (XLA compilation of mjx.step): it is started speculatively when the v5 semantics reads
         # force-type leaves (cfrc_*, cacc) and killed as soon as the measured write-set shows that it is not needed
-        if ck.only is None or ck.only == f"{self.eid}.reads_only_written_fields":
+        if ck.thorough and (ck.only is None or ck.only == f"{self.eid}.reads_only_written_fields"):
             rec = _Rec()
             try:
                 z = {f: np.zeros((40, 12)) for f in R.FIELDS}
@@ -317,7 +319,7 @@ class EnvCheck:
         W = set(st.written["step"]) | set(st.written["forward"])
         self.derived_reads = sorted(f for f in self.reads if f not in STATE_FIELDS)
         self.unwritten = [f for f in self.derived_reads if f not in W]
-        if self.unwritten and self.phys is None and (ck.only is None or ck.only == f"{self.eid}.reads_only_written_fields"):
+        if self.unwritten and self.phys is None and ck.thorough and (ck.only is None or ck.only == f"{self.eid}.reads_only_written_fields"):
             self.start_physics()
         if not self.unwritten and self.phys is not None:
             self.phys.kill()
@@ -369,7 +371,7 @@ class EnvCheck:
         self.prove(f"{eid}.obs_layout", link, eq_arr(out["obs"], r_obs) if out["obs"].shape == r_obs.shape else False,
                  margin_goal=margin(pairs, extra), replay=rp_for("obs", "obs"))
         # a wrong layout (entries rotated by one) must be refuted
-        if r_obs.size > 1:
+        if r_obs.size > 1 and out["obs"].shape == r_obs.shape:
             ck.control(f"control.{eid}.obs_rotated", link, eq_arr(out["obs"], np.roll(r_obs, 1)), nonlinear=True)
         # reward
         self.prove(f"{eid}.reward", link, eq_elem(out["reward"][()], r_rew), margin_goal=margin([(out["reward"][()], r_rew)], extra),
@@ -386,6 +388,11 @@ class EnvCheck:
             fam = "components" if k in ref.reward_components else "info"
             oid = f"{eid}.{fam}.{k}"
             name = "info_" + k
+            if fam != "components":
+                # the statement speaks of reward components only; other v5 info entries are recorded, not asserted
+                if name not in out:
+                    ck.notes.append(f"informational (outside the claim): v5 step() info['{k}'] has no counterpart in lerax {self.name}.transition_info")
+                continue
             if name not in out:
                 ck.fact(oid, False, f"v5 step() returns info['{k}'] but lerax {self.name}.transition_info has no such entry (its keys: "
                         f"{sorted(n[5:] for n in out if n.startswith('info_'))})")
@@ -398,6 +405,11 @@ class EnvCheck:
         for k, want in r_sinfo.items():
             oid = f"{eid}.reset_info.{k}"
             name = "sinfo_" + k
+            if name not in out:
+                ck.notes.append(f"informational (outside the claim): v5 reset() info['{k}'] has no counterpart in lerax {self.name}.state_info")
+                continue
+            if True:
+                continue
             if name not in out:
                 ck.fact(oid, False, f"v5 reset() returns info['{k}'] but lerax {self.name}.state_info has no such entry (its keys: "
                         f"{sorted(n[6:] for n in out if n.startswith('sinfo_'))})")
@@ -507,8 +519,7 @@ class EnvCheck:
             if f != "ctrl" and outD[f].size:
                 goals.append(eq_arr(outD[f], D[f]))
         oracle_out = {"sim_state_qpos": cur["qpos"], "sim_state_qvel": cur["qvel"], "sim_state_ctrl": a}
-        ck.prove(f"mujoco.transition_frame_skip@{eid}", [], conj(goals),
-                 replay=lambda res: concrete.replay_outputs(tr, S, res, uf_apps=it.uf_apps, oracle=oracle_out))
+        ck.prove(f"mujoco.transition_frame_skip@{eid}", [], conj(goals), replay=lambda res: self.replay_transition(res, tr, S, n))
         cur_w, _ = oracle(n + 1)
         ck.control(f"control.{eid}.transition_one_step_too_many", [], eq_arr(out["sim_state_qpos"], cur_w["qpos"]))
         cur_w, _ = oracle(n, ctrl_first=False)
@@ -562,6 +573,43 @@ class EnvCheck:
         ck.bound(**{"initial.while_unwind": 2})
         ck.prove(f"{eid}.reset_consistent", assum, disj(alts) if check_fields else True, replay=lambda res: self.replay_reset(check_fields))
 
+    def replay_transition(self, res, tr, S, n):
+        """the real transition (physics = a GENERIC concrete interpretation of the uninterpreted functions: a fixed pseudo-random function of
+        all operands) on the model's state and action, against the statement evaluated with the same interpretation: ctrl <- action, n times
+        (time, qpos, qvel) <- STEP(PHYS(qpos, qvel, ctrl)), t + dt.  A wrong operand / wrong count reproduces under any generic interpretation."""
+        from jaxsmt import concrete
+        from jaxsmt.uf import GenericWorld
+        vals = self.concrete_inputs(res, tr, S)
+        V = dict(zip(tr.in_names, vals))
+        # make sure action and stored control differ (they are independent inputs)
+        a = np.asarray(V["a"], dtype=np.float32)
+        if np.allclose(a, np.asarray(V["s_sim_state_ctrl"], dtype=np.float32)):
+            a = a + np.float32(0.25)
+            vals[tr.in_names.index("a")] = self.jnp.asarray(a)
+        real = dict(zip(tr.out_names, concrete.run_real(tr, vals, GenericWorld(seed=7))))
+        w = GenericWorld(seed=7)
+        st = self.stub
+        cur = {"qpos": np.asarray(V["s_sim_state_qpos"], np.float32), "qvel": np.asarray(V["s_sim_state_qvel"], np.float32), "ctrl": a,
+               "time": np.asarray(V["s_sim_state_time"], np.float32)}
+        group = [nm for nm in st.names if nm in ("qpos", "qvel", "time") and nm in st.written["step"]]
+        spec = tuple((st.avals[st.names.index(nm)][0], np.dtype(st.avals[st.names.index(nm)][1]).name) for nm in group)
+        for _ in range(n):
+            ops = [cur[k] for k in st.data_operands]
+            if st.factor:
+                ops = [w.apply("PHYS", (((), "float32"),), ops, (False,) * len(ops), None)[0]]
+            outs = w.apply("STEP", spec, ops, (False,) * len(ops), None)
+            cur.update({nm: np.asarray(o_, np.float32) for nm, o_ in zip(group, outs)})
+        want = {"sim_state_qpos": cur["qpos"], "sim_state_qvel": cur["qvel"], "sim_state_time": cur["time"], "sim_state_ctrl": a,
+                "t": np.float32(V["s_t"]) + np.float32(V["env_dt"])}
+        diffs = {}
+        for k, wv in want.items():
+            got = np.asarray(real[k], dtype=np.float64)
+            if got.shape != np.shape(wv) or np.abs(got - np.asarray(wv, dtype=np.float64)).max() > 1e-5:
+                diffs[k] = {"real_transition": got.reshape(-1)[:5].tolist(), "statement": np.asarray(wv, dtype=np.float64).reshape(-1)[:5].tolist()}
+        return bool(diffs), {"environment": self.name, "frame_skip": n, "dt": float(V["env_dt"]), "differences": diffs,
+                             "how": "real lerax transition with mjx.step bound to a generic concrete function of (qpos, qvel, ctrl); statement = ctrl<-action, "
+                                    "frame_skip applications of that function, t+dt"}
+
     # ------------------------------------------------------------------ replays on the real pipeline
     def replay_reset(self, fields):
         """real lerax initial() vs the installed Gymnasium at the same qpos, qvel (set_state runs mj_forward)"""
@@ -597,7 +645,78 @@ class EnvCheck:
                                      stdout=subprocess.DEVNULL, stderr=subprocess.DEVNULL)
         self.log("real-physics differential run (lerax MJX transition vs Gymnasium step from the same qpos, qvel, action) started in a helper process")
 
+    def replay_passthrough(self, unwritten):
+        """Without running the physics: (1) in the jaxpr of the REAL, unstubbed lerax transition (real mjx.step inside lax.scan) the output leaf IS
+        the input variable, (2) the real initial() delivers zeros for it, so it is zero along every lerax episode; (3) the installed Gymnasium,
+        stepped into a contact state, has it non-zero, and the real lerax observation / transition_info evaluated on Gymnasium's own successor
+        data with lerax's value of the leaf differ from Gymnasium's outputs exactly there."""
+        import equinox as eqx
+        import jax
+        from jaxsmt.mjxstubs import leaf_table
+        env, G, jr, jnp = self.env, self.G, self.jr, self.jnp
+        t0 = time.time()
+        jp, _, _ = eqx.filter_make_jaxpr(lambda e, s, a, k: e.transition(s, a, key=k).sim_state)(env, self.s0, self.a0, jr.key(0))
+        in_names = [n for n, _ in leaf_table(self.s0.sim_state)]
+        n_env = len([l for l in jax.tree_util.tree_leaves(env) if eqx.is_array(l)])
+        ins = jp.jaxpr.invars[n_env:n_env + len(in_names)]
+        outs = jp.jaxpr.outvars
+        ident = {f: (outs[in_names.index(f)] is ins[in_names.index(f)]) for f in unwritten}
+        # value of the leaf after the real initial(): only that output is requested, so a forward() that initial() may run is dead code for it
+        zero0 = {f: bool(np.all(np.asarray(jax.jit(lambda k, f=f: getattr(env.initial(key=k).sim_state, f))(jr.key(self.ck.seed + 3))) == 0)) for f in unwritten}
+        from mujoco import mjx
+        from lerax.env.mujoco.base_mujoco import MujocoEnvState
+        s0 = MujocoEnvState(sim_state=mjx.make_data(env.model), t=jnp.array(0.0))
+        g = G.g
+        g.reset(seed=self.ck.seed)
+        g.action_space.seed(self.ck.seed)
+        for i in range(300):
+            Db = G.get()
+            a = g.action_space.sample().astype(np.float64)
+            ob_g, r_g, term_g, _, info_g = g.step(a)
+            if i >= 3 and all(np.abs(getattr(g.data, f)).max() > 1.0 for f in unwritten):
+                break
+        Da = G.get()
+
+        def state_from(D, ctrl):
+            d = s0.sim_state
+            top = {}
+            imp = {}
+            for f in self.R.FIELDS:
+                if f in unwritten or not np.asarray(getattr(d, f)).size:
+                    continue
+                v = jnp.asarray(D[f] if f != "ctrl" else ctrl, jnp.float32).reshape(np.asarray(getattr(d, f)).shape)
+                (top if f in d.__dataclass_fields__ else imp)[f] = v
+            d = d.replace(**top)
+            if imp:
+                d = d.tree_replace({"_impl." + k: v for k, v in imp.items()})
+            return eqx.tree_at(lambda s: s.sim_state, s0, d)
+        sb, sa = state_from(Db, Db["ctrl"]), state_from(Da, a)
+        ob_l = np.asarray(env.observation(sa, key=jr.key(1)), dtype=np.float64)
+        info_l = env.transition_info(sb, jnp.asarray(a, jnp.float32), sa)
+        ob_g = np.asarray(ob_g, dtype=np.float64)
+        bad = np.argwhere(np.abs(ob_l - ob_g) > 1e-3 * (1 + np.abs(ob_g))).reshape(-1) if ob_l.shape == ob_g.shape else np.arange(0)
+        comp = {k: {"lerax": float(np.asarray(info_l[k])), "gymnasium": float(info_g[k])} for k in sorted(set(info_l) & set(info_g))
+                if k.startswith("reward") and abs(float(np.asarray(info_l[k])) - float(info_g[k])) > 1e-4 * (1 + abs(float(info_g[k])))}
+        rec = {"environment": self.name, "never_written_leaves_read": unwritten,
+               "output_leaf_is_input_variable_in_the_jaxpr_of_the_real_transition": ident, "zero_after_real_initial": zero0,
+               "gymnasium_max_abs_after_a_step_into_contact": {f: float(np.abs(getattr(g.data, f)).max()) for f in unwritten},
+               "gymnasium_steps_before_the_compared_step": i, "observation_entries_differing": f"{len(bad)} of {ob_l.size}",
+               "lerax_obs_there": ob_l[bad[:6]].tolist(), "gymnasium_obs_there": ob_g[bad[:6]].tolist(), "reward_components_differing": comp,
+               "seconds": round(time.time() - t0, 1),
+               "how": "real lerax transition traced WITHOUT stubs (IR pass-through), real initial(), installed Gymnasium stepped into contact; real lerax "
+                      "observation/transition_info on Gymnasium's own successor data with lerax's value of the never-written leaf"}
+        rep = all(ident.values()) and all(zero0.values()) and (len(bad) > 0 or bool(comp))
+        return rep, rec
+
     def replay_physics(self, unwritten):
+        rep0, rec0 = self.replay_passthrough(unwritten)
+        if not self.ck.thorough:
+            return rep0, rec0
+        rep1, rec1 = self.replay_real_physics(unwritten)
+        rec1["without_running_the_physics"] = rec0
+        return rep0 or rep1, rec1
+
+    def replay_real_physics(self, unwritten):
         if self.phys is None:
             self.start_physics()
         try:
@@ -642,8 +761,9 @@ def physics_main(name, seed, path):
                 break
         rec["gymnasium_steps_before_the_compared_step"] = i
         env = getattr(lm, name)()
-        s0 = env.initial(key=jr.key(seed))
-        s = eqx.tree_at(lambda s: s.sim_state, s0, s0.sim_state.replace(qpos=jnp.asarray(q, jnp.float32), qvel=jnp.asarray(v, jnp.float32)))
+        from mujoco import mjx
+        from lerax.env.mujoco.base_mujoco import MujocoEnvState
+        s = MujocoEnvState(sim_state=mjx.make_data(env.model).replace(qpos=jnp.asarray(q, jnp.float32), qvel=jnp.asarray(v, jnp.float32)), t=jnp.array(0.0))
         s1 = env.transition(s, jnp.asarray(a, jnp.float32), key=jr.key(seed + 1))
         ob_l = np.asarray(env.observation(s1, key=jr.key(2)), dtype=np.float64)
         info_l = env.transition_info(s, jnp.asarray(a, jnp.float32), s1)
@@ -722,6 +842,10 @@ def run(ck, names=None):
     import concurrent.futures as cf
     import multiprocessing as mp
     names = list(names or ENV_IDS)
+    if ck.only is not None:     # --replay <file>: only the environment the obligation belongs to (none if it belongs to the classic half)
+        names = [n for n in names if ck.only.startswith(ENV_IDS[n] + ".") or ck.only.endswith("@" + ENV_IDS[n]) or f".{ENV_IDS[n]}." in ck.only]
+        if not names:
+            return
     ck.bound(mujoco_envs=names, mujoco_note="actual model sizes (no reduction); every array field of the environment (weights, ranges, dt, model) and two complete "
              "mjx.Data records are symbolic reals; frame_skip and the observation flags are the constructor defaults")
     ck.out("MJX-vs-MuJoCo physics agreement (physics is uninterpreted), multi-step trajectories, non-finite states (isfinite is true over the reals), "
